@@ -52,6 +52,14 @@ Example C12_overlapping_dividend_refuted :
 Proof. exists {| p_qty := 1000; p_old := 1000; p_lold := 1000; p_avg := 10; p_trade_cost := 0; p_tcost := 0; p_non_closable := 0; p_last := 10; p_recv := Some (20200108%Z, 500) |}.
   split; vm_compute; reflexivity. Qed.
 
+(* the pre-open purge of emptied holdings (Account._on_before_trading) drops nothing of value: every dropped entry has equity 0, and an
+   emptied holding whose dividend is still receivable is never dropped - it has to survive until the payable date *)
+Theorem C12_purge_drops_no_value : forall entries, purgeable entries = true -> Forall (fun e => equity (fst e) (snd e) == 0) entries.
+Proof. exact purgeable_equity_zero. Qed.
+Theorem C12_purge_keeps_receivable : forall c p d v, pc_kind c = StockPos -> p_recv p = Some (d, v) -> ~ v == 0 -> p_qty p == 0 ->
+  purgeable [(c, p)] = false.
+Proof. exact purgeable_keeps_receivable. Qed.
+
 Print Assumptions C12_dividend_ex.
 Print Assumptions C12_dividend_pay.
 Print Assumptions C12_dividend_amount.
@@ -62,3 +70,5 @@ Print Assumptions C12_split_scales.
 Print Assumptions C12_delist_payout.
 Print Assumptions C12_expiry.
 Print Assumptions C12_conversion.
+Print Assumptions C12_purge_drops_no_value.
+Print Assumptions C12_purge_keeps_receivable.
